@@ -112,9 +112,16 @@ func (s *Store) persist(higher Snapshot, persistOptions StorePersistOptions) (
 		return nil, fmt.Errorf("store: can only persist segmentStack")
 	}
 
-	// If higher segment has no data, we're still clean, so just snapshot.
+	// If higher segment has no data, we're still clean, so just snapshot
+	// - unless a child collection was dropped (or dropped and recreated)
+	// since, which has to be persisted even though there is no data.
 	if ss.isEmpty() {
-		return s.Snapshot()
+		s.m.Lock()
+		childrenChanged := s.footer.childrenChanged(ss)
+		s.m.Unlock()
+		if !childrenChanged {
+			return s.Snapshot()
+		}
 	}
 
 	fref, file, err := s.startOrReuseFile()
